@@ -218,6 +218,7 @@ func runSchedules(r *ev.Run) {
 				a = ts.MustRegister(idD, 1)
 			}
 			s := vsched.New(c, 20000, "JobQueue", "Tasks", "sync.Mutex")
+			s.SpinFree = 16 // the loops on these paths parse and wrap, they do not poll (vsched.Sched.SpinFree)
 			sc.build(s, h, a, ts)
 			s.Run()
 			var rest []uint32
@@ -313,6 +314,7 @@ func runTwoSessions(r *ev.Run) {
 		ts.Task(id1, "00001111", agent.COMMAND_SLEEP, map[string]any{"Arguments": "5;10"})
 		ts.Task(id2, "00002222", agent.COMMAND_CHECKIN, nil)
 		s := vsched.New(c, 20000, "JobQueue", "Tasks", "sync.Mutex", "sync.Pool")
+		s.SpinFree = 16 // the loops on these paths parse and wrap, they do not poll (vsched.Sched.SpinFree)
 		got := map[uint32]string{}
 		for _, x := range []struct {
 			id uint32
